@@ -8,3 +8,13 @@ chk("C02", "model_checking",
     "Every reachable base state (driving alphabet, 3 genesis families, depth bound) x every singleton and ordered pair (thorough: triples) of a 70-template state-relative tx menu: the real ProposeBlock output is validated and inserted by a fresh replica with another node key through the real AddBlock; head hash, both roots and the shared database content must agree. Exhaustive within the stated alphabet and depth.",
     "memoryIpfs CIDs instead of kubo; fixed keys; mempool/state map iteration pinned to canonical order by the maporder overlay (order variation is explored under C01).",
     "DESIGN.md 5/C02", "chainmc")
+chk("C04", "model_checking",
+    "explicit-state BFS over real block transitions; full ledger iteration after every block; issuance bound + with/without-transactions differential",
+    "Every transition of the C02-style search (incl. a macro that runs a whole ceremony to the epoch-finishing block) sums all balances, stakes and contract stakes of the committed state before and after; the delta is bounded by the block kind's issuance and by the same block proposed without the transactions. Exhaustive within alphabet and depth.",
+    "A negative intermediate is observable only as growth of the total (sign-dropping encoding); validation results in explored epochs come from chains without ceremony participants unless the C17 driver is used.",
+    "DESIGN.md 5/C04", "chainmc")
+chk("C05", "model_checking",
+    "explicit-state BFS over real block transitions; per-address differential of the block with exactly one tx against the tx-less block of the same proposer and time",
+    "From every base state (3 scenarios incl. one with a pool, a staked invitee and a funded contract) ~1000 single-transaction templates are offered, covering every tx type with a recipient x 6 signer classes x 15 target relationship classes; any address other than the signer whose balance+stake+contract stake is lower than in the tx-less block is a violation unless it is exactly one of the three named exceptions (all three are observed).",
+    "Only the inclusion block is compared (delayed effects a signer chooses for itself are outside the claim); transactions that validation refuses never reach a block, so a missing relationship check shows up as an admitted tx with a foreign loss.",
+    "DESIGN.md 5/C05", "chainmc")
